@@ -375,7 +375,8 @@ func (s *Service) unblindProposal(ctx context.Context,
 		Deneb:     proposal.DenebBlinded,
 	}
 
-	respCh := make(chan *api.VersionedSignedProposal, 1)
+	// The channel has room for every provider, so that providers responding at the same time do not block.
+	respCh := make(chan *api.VersionedSignedProposal, len(providers))
 	for _, provider := range providers {
 		go func(ctx context.Context, provider builderclient.UnblindedProposalProvider, ch chan *api.VersionedSignedProposal) {
 			log := s.log.With().Str("provider", provider.Address()).Logger()
